@@ -1,0 +1,42 @@
+// Verification hooks. Compiled only with `--cfg tarpc_verif`; never part of a normal build.
+
+//! Hooks used by external model-checking harnesses: a per-thread yield callback that lets a
+//! controlled scheduler run other tasks between two steps of a `Drop` impl, and a clock shim
+//! that makes deadline arithmetic read tokio's (pausable) clock.
+
+use std::{cell::RefCell, rc::Rc};
+
+thread_local! {
+    static YIELD_HOOK: RefCell<Option<Rc<dyn Fn(&'static str)>>> = const { RefCell::new(None) };
+}
+
+/// Installs (or, with `None`, removes) this thread's yield callback.
+pub fn set_yield_hook(hook: Option<Rc<dyn Fn(&'static str)>>) {
+    // The previous closure is dropped only after the borrow has ended: dropping it may drop
+    // channels whose own `Drop` impls call `yield_point` again.
+    let old = YIELD_HOOK.with(|h| h.replace(hook));
+    drop(old);
+}
+
+/// Calls this thread's yield callback, if one is installed.
+pub fn yield_point(label: &'static str) {
+    let hook = YIELD_HOOK.with(|h| h.borrow().clone());
+    if let Some(hook) = hook {
+        hook(label);
+    }
+}
+
+/// Clock shim: `Instant::now()` reads tokio's clock, which a harness can pause and advance.
+pub mod clock {
+    /// Stand-in for the *name* `std::time::Instant` at the sites that read the clock.
+    #[derive(Debug)]
+    pub struct Instant;
+
+    impl Instant {
+        /// The current instant according to tokio's clock.
+        #[allow(clippy::new_ret_no_self)]
+        pub fn now() -> std::time::Instant {
+            tokio::time::Instant::now().into_std()
+        }
+    }
+}
